@@ -269,6 +269,16 @@ def substGen (bind : String) (by_ : Node) : Node → Node :=
     | .mk .ident (_ :: b :: _) _ => if b == bind then by_ else n
     | n => n
 
+/-- `<a.b.C>` denotes `a.b.C`; `<this.C>` denotes `this.C` (children already rewritten by the post-order pass) -/
+def memberOfJsx : Node → Node
+  | .mk .jsxMember _ [obj, prop] =>
+    let o := match obj with
+      | .mk .ident ("this" :: _) _ => .mk (.other "ThisExpression") [] []
+      | .mk .ident as _ => .mk .ident as []
+      | m => m
+    .mk .member [] [o, prop]
+  | n => n
+
 /-- local rule of `evalOut` (children are already normalised) -/
 def evalRule (roles : Roles) (pragma : Option String) (n : Node) : Node :=
   match n with
@@ -321,7 +331,7 @@ def evalRule (roles : Roles) (pragma : Option String) (n : Node) : Node :=
     | .mk .assign ["="] [.mk .paren _ [.mk .ident (tn :: tb :: _) _], e] =>
       if isGenBind tb && cons == nIdent tn tb then S "slotcond" [] [e, substGen tb e alt] else n
     | x => if cons == x then S "slotcond" [] [x, alt] else n
-  | .mk .jsxMember _ [obj, prop] => .mk .member [] [obj, prop]     -- a member tag denotes the member expression
+  | .mk .jsxMember as ks => memberOfJsx (.mk .jsxMember as ks)     -- a member tag denotes the member expression
   | n => n
 
 /-- is this statement one the transform inserted (import of helpers, `_isSlot`, temporaries)? -/
@@ -682,7 +692,9 @@ def denoteRule (c : DCtx) (n : Node) : Node :=
     let attrs := expandVModels attrs0
     let isComp := denoteIsComponent c nameN
     let acc := attrs.foldl (denoteAttr c isComp nameN attrs) {}
-    let tagN := match nameN with | .mk .jsxMember _ [o, p] => .mk .member [] [o, p] | t => t
+    let tagN := match nameN with
+      | .mk .jsxNsName _ [a, b] => nStr (identName a ++ ":" ++ identName b)      -- a namespaced tag is its qualified name
+      | t => t
     let nModels := (attrs0.filter fun a => match a with | .mk .jsxAttr _ [.mk .ident ("v-models" :: _) _, _] => true | _ => false).length
     let feats := acc.feats ++ (if c.o.mergeProps && hasDroppedDup acc.ops then ["dropped-duplicate"] else [])
       ++ (if nModels > 1 then ["ood-directive-value"] else [])
@@ -690,7 +702,7 @@ def denoteRule (c : DCtx) (n : Node) : Node :=
       [denoteTag c tagN, denoteProps c acc, denoteKids c isComp children acc.vslots, S "dirs" [] acc.dirs, S "hints" [] []]
   | .mk .jsxFragment _ [_, .mk .list _ children, _] =>
     S "vnode" ["element"] [S "Fragment" [] [], S "props" [] [], denoteKids c false children none, S "dirs" [] [], S "hints" [] []]
-  | .mk .jsxMember _ [obj, prop] => .mk .member [] [obj, prop]
+  | .mk .jsxMember as ks => memberOfJsx (.mk .jsxMember as ks)
   | n => n
 
 def denote (o : Opts) (env : Env) (inp : Node) : Node := post (denoteRule { o := o, env := env }) inp
